@@ -379,7 +379,8 @@ def gen_object(rng, n_enums, big=False):
         bugs = ["BUG-211", "BUG-211 c", "BUG", "no bug", "BUG-xxx"] if repo == "parent+lib" else \
                ["BUG-111", "BUG-133", "BUG", "BUG-xxx", "BUG-177", "BUG-444"]
         return {"kind": "ghist", "repo": repo, "bug": rng.choice(bugs), "shared_fmt": rng.random() < 0.5}
-    return {"kind": "hdoc", "what": rng.choice(["cls", "obj", "derived", "method", "mcaller", "noted", "noted_method"]),
+    return {"kind": "hdoc", "what": rng.choice(["cls", "obj", "derived", "method", "mcaller", "noted", "noted_method",
+                                                   "explicit", "explicit_cls", "explicit_method", "func"]),
             "level": rng.choice([1, 2])}
 
 
@@ -427,6 +428,22 @@ def generate(rng, tier):
         if rng.random() < 0.6:
             # ... and little else going on: the two reports are consumed in turns
             objs = [o for o in objs if o["kind"] == "ghist"] + [o for o in objs if o["kind"] != "ghist"][:1]
+    if rng.random() < 0.05:
+        # two small tables whose enum columns (one shared field type) hold equal values of different types:
+        # 1 / 1.0 / True, 2 / 2.0, 0 / 0.0 / False are one dictionary key each, and are printed differently
+        n_enums = max(1, n_enums)
+        if not enums:
+            enums = [gen_enum(rng)]
+        twins = []
+        for pool in ([0, 1, 2, 3, 2, 1], [0.0, 1.0, 2.0, True, False, 3.0]):
+            recs = [[i + 1, rng.choice(pool)] for i in range(rng.randint(2, 5))]
+            t = {"kind": "table", "fields": ["id", "status"], "records": recs, "types": {"status": 0}}
+            fmt = rng.choice([None, "status/val,id", "status/full", "id,status/val"])
+            if fmt:
+                t["fmt"] = fmt
+            twins.append(t)
+        rng.shuffle(twins)
+        objs = twins + objs[:1]
     long_run = rng.random() < 0.03
     if long_run:
         # a long history for the shared field types: many big tables with many different enum values
@@ -454,6 +471,8 @@ def generate(rng, tier):
              "palette": rng.choice(PALETTES_FOR[kind]), "rec": rng.randrange(3)}
         if a["palette"] and a["palette"].get("synced"):
             a["conf"] = "global"
+        if kind == "ppwrap" and rng.random() < 0.35:
+            a["via_repr"] = True      # the interactive console's way: repr(wrapper) prints the text
         return a
 
     while len(ops) < n_ops:
@@ -776,6 +795,8 @@ class World:
             if via != "global":
                 return None
             mode = {"via": "global", "no_color": False, "palette": None}
+            if op.get("via_repr") and kind == "ppwrap":
+                mode["via_repr"] = True
         else:
             mode = {"via": via, "no_color": bool(op.get("no_color")), "palette": pal, "rec": op.get("rec", 0)}
         conf_arg = None if via == "global" else cm.conf
@@ -838,6 +859,21 @@ class World:
         if how == "plain":
             self.stats["plain_checked"] += 1
         self.stats["renders_checked"] += 1
+
+
+def _line_with_format_probe(w, t, i, line):
+    """a consumer that centres the first lines it gets (f"{line:^N}"): colours never change the layout of the
+    formatted line either"""
+    if i < 3 and hasattr(line, "plain_text"):
+        plain = line.plain_text()
+        if "\n" not in plain and "\r" not in plain:
+            spec = f"^{len(plain) + 3 + i}"
+            got = format(line, spec)
+            w.stats["formatted_lines"] = w.stats.get("formatted_lines", 0) + 1
+            if sgr.strip(got) != format(plain, spec):
+                raise Violation("O2", "formatted-line-layout-differs-from-plain",
+                                f"format(line, {spec!r}) gives {sgr.strip(got)!r}, the plain line gives {format(plain, spec)!r}")
+    return rw.ro.line_to_str(line)
 
 
 def first_diff(a, b):
@@ -1004,7 +1040,8 @@ def _do_op(w, trace, op, n, k, log, color):
                                   lambda: [rw.ro.line_to_str(x) for x in list(rw.ro.line_iter(t.r))])
                 w.stats["lines_looked_at_late"] += 1
             else:
-                lines = w.guarded("iterate-lines", t.ctx(), lambda: [rw.ro.line_to_str(x) for x in rw.ro.line_iter(t.r)])
+                lines = w.guarded("iterate-lines", t.ctx(),
+                                  lambda: [_line_with_format_probe(w, t, i, x) for i, x in enumerate(rw.ro.line_iter(t.r))])
             text = "\n".join(lines)
             whole = w.guarded("whole-text", t.ctx(), rw.ro.whole_text, t.r, "str")
             if sgr.canon(text) != sgr.canon(whole):
